@@ -70,6 +70,16 @@ CHECKS = {
          "max_attempts 0..=3 (0..=4 thorough) x initial/max back-off grid (incl. initial > max, zero, u64::MAX s) x multipliers {0,0.5,1,2,10,1e30,NaN,-1} x jitter x every canonical outcome sequence of length <= max_attempts+2 over {Ok, retryable, rate-limited with hint 0/1 s/1 h, without hint, non-retryable} is enumerated (2.2 M cases quick); sampled policies reach max_attempts 5 and off-grid values; from_env is driven with the same values as strings.",
          "Trusted: tokio's paused clock (no wall-clock verdicts). Policies whose documented delay lies in [1e14 s, 2^63 s) are not built (tokio clamps such sleeps); jitter is judged by bounds only.",
          "DESIGN.md §3 C14"),
+ "C06": ("crash+pbt", "fault_enumeration",
+         "crash-point enumeration: a recorder installed on the verif-hooks crash_point call sites snapshots the directory between the I/O steps of every save routine; each snapshot is expanded into crash images (in-flight un-synced file replaced by every prefix, zeros, stale bytes, mixed) and a fresh instance must load each image as completely old or completely new; histories leading to the save are proptest-generated",
+         "For index bucket save (incl. the retry loop), ResidencyDb::save, LRU checkpoint/shutdown, DiskCache::write_file and the compaction backup journal: all hook sites x all images are enumerated for every generated history (about 790k images per quick run). Oracle: the fresh instance opens, and every object equals what a fresh instance sees on the directory before or after the interrupted operation.",
+         "Crash model: rename is atomic and ordered after the preceding fsync; un-synced file content may be any prefix / zeros / stale / mixed; directory-entry durability and sector reordering inside one write are not modelled. A hook label is trusted (a mutant that drops an fsync but keeps the after_sync site is not seen). Guard: a section that reaches zero crash points reports infrastructure trouble (exit 2).",
+         "DESIGN.md §3 C06, §4"),
+ "C20": ("pbt+net", "exploration",
+         "generated hostile strings (separators, '..', absolute paths, over-long names, non-ASCII) for every public API that turns a string into a file path or URL, executed inside a sandbox directory; oracle = recursive before/after listing of the sandbox parent (nothing outside the configured root created, changed, read or removed), no panic, and injectivity of well-formed typed keys",
+         "DiskCache (flat and hashed layouts) with free-string and all ten typed keys, ProtocolCache, RibbitTactClient::query against a loopback mock, CdnClient download/download_archive_index/download_range with keys of length 0..=32 and offsets/lengths incl. 0 and u64::MAX, Storage::open_installation, and the fixed-width path builders. Reads/deletes outside the root are made observable by planting a foreign file at the resolved target and using a fresh instance.",
+         "Safety and domain: every string is resolved lexically before the call and skipped (counted) unless it stays inside the sandbox parent (<= 8 '..' components, absolute paths only below the parent); no symlinks, no NUL bytes. CDN hosts are loopback spellings only.",
+         "DESIGN.md §3 C20"),
 }
 
 NOT_YET = "check not built yet in this session (work in progress; see DESIGN.md §3 for the planned generator and oracle)"
